@@ -147,7 +147,8 @@ def make_harness(kind, atol_none=False, canary=False, real_energies=False, zero_
             return
         # accepted: instantiate the np.any facts at (a, b)
         z0 = z3.IntVal(0)
-        pw.instantiate_any(eng, [[a, b], [a, z0], [z0, b], [z0, z0]])   # broadcast shapes when a block's energies are a 0-d array
+        # (broadcast shapes when a block's energies are a 0-d array: the witness index lives on the broadcast shape)
+        pw.instantiate_any(eng, [[a, b], [a, z0], [z0, b], [z0, z0]] if zero_block is not None else [[a, b]])
         if kind == "sympy":
             shared_ab = Ea.eq(Fb)
         elif atol_none:
